@@ -357,6 +357,48 @@ func runB(r *core.Run, col *collector, samples *[]any) map[string]any {
 				}
 			}
 		}
+		// method sweep: every safe method passes and leaves a cookie whatever the Origin; every other
+		// method is protected (no token => rejected; valid token from a foreign origin => rejected)
+		for mi2, method := range []string{"GET", "HEAD", "OPTIONS", "TRACE", "POST", "PUT", "PATCH", "DELETE", "CONNECT"} {
+			safe := mi2 < 4
+			for vi, variant := range []string{"no-token", "valid-token+evil-origin", "valid-token+null-origin+evil-referer"} {
+				req := fx.Req(method, "/")
+				req.Header.SetHost(host)
+				if mode.XFP != "" {
+					req.Header.Set("X-Forwarded-Proto", mode.XFP)
+				}
+				switch variant {
+				case "valid-token+evil-origin":
+					req.Header.Set("X-Csrf-Token", tok)
+					req.Header.Set("Cookie", "csrf_="+tok)
+					req.Header.Set("Origin", "https://evil.com")
+				case "valid-token+null-origin+evil-referer":
+					req.Header.Set("X-Csrf-Token", tok)
+					req.Header.Set("Cookie", "csrf_="+tok)
+					req.Header.Set("Origin", "null")
+					req.Header.Set("Referer", "https://evil.com/page")
+				}
+				reached, lastErr = false, ""
+				fx.CallInto(&fctx, h, req, peer, mode.TLS)
+				l.Add("B.method_sweep", 1)
+				var sc fasthttp.Cookie
+				sc.SetKey("csrf_")
+				hasCk := fctx.Response.Header.Cookie(&sc) && len(sc.Value()) > 0
+				cs := map[string]any{"harness": "B", "method": method, "variant": variant, "scheme_mode": mode.Name, "host": host, "trusted_origins": tr.Origins}
+				ord := [4]int{0, ui, 1000 + mi2, vi}
+				l.Outcome(fmt.Sprintf("B method-sweep safe=%v %s reached=%v cookie=%v", safe, variant, reached, hasCk))
+				switch {
+				case safe && !reached:
+					col.add(ord, "B safe-method-rejected method="+method, "a safe-method request did not reach the handler", cs, map[string]any{"reached": false, "csrf_error": lastErr, "status": fctx.Response.StatusCode()}, "safe methods always pass")
+				case safe && !hasCk:
+					col.add(ord, "B safe-method-left-no-cookie method="+method, "a safe-method request left no CSRF cookie", cs, map[string]any{"reached": true}, "a valid token cookie")
+				case !safe && reached && (variant != "valid-token+null-origin+evil-referer" || mode.Scheme == "https"):
+					col.add(ord, "B unsafe-method-unprotected method="+method+" variant="+variant, "an unsafe-method request without a token / from a foreign origin reached the handler", cs, map[string]any{"reached": true}, "rejected")
+				case !safe && reached:
+					l.Add("unspecified_skipped", 1) // http + Origin: null: see assumptions
+				}
+			}
+		}
 		// control: the token must still be good, otherwise rejections above were not about the origin
 		reached = false
 		creq := fx.Req("POST", "/", "X-Csrf-Token", tok, "Cookie", "csrf_="+tok, "Origin", mode.Scheme+"://"+host)
